@@ -1,4 +1,4 @@
-import GtfsVerif.Lemmas.Realtime
+import GtfsVerif.Lemmas.RealtimeVeh
 import GtfsVerif.Lemmas.Decimal
 import GtfsVerif.Gen.Regex
 /-! # C02 — realtime parse transcribes every wire field faithfully, in the configured zone
@@ -201,5 +201,163 @@ theorem C02_alert_fields (id : Str) (a : AlertMsg) :
 /-! ## non-vacuity -/
 example : parseStartTime (some [50, 53, 58, 49, 48, 58, 48, 48]) = (true, 90600) := by decide
 example : (parseStartDate (some [50, 48, 50, 52, 48, 50, 50, 57])).1 = true := by decide
+
+end Gtfs.Rt
+
+namespace Gtfs.Rt
+
+/-! ## exactly one Trip per distinct trip descriptor, one Vehicle per distinct vehicle -/
+
+/-- **C02 (one Trip per distinct trip descriptor).** For a message without conflicting duplicates:
+    a trip identifier is in `Trips` exactly when some entity of the message mentions it (a trip
+    update, a vehicle position, an alert's informed entity); it is there once
+    (`C07_trips_sorted_unique`); and the entry carries the data of the trip's own entity when it has
+    one (flagged `inMessage`), otherwise only the identifier (flag false, no stop time updates) -/
+theorem C02_trips_exact (ext : Ext) (m : Msg) (hcf : ConflictFreeTrips ext (prepass ext m)) :
+    (∀ k, k ∈ (parse ext m).trips.map (·.data.id) ↔ ∃ x ∈ allMentions ext (prepass ext m), x.id = k) ∧
+    (∀ t ∈ (parse ext m).trips,
+      t.data = match ((allMentions ext (prepass ext m)).filter fun x => x.id == t.data.id).find? (·.inMessage) with
+               | some own => own
+               | none => { id := t.data.id, inMessage := false }) := by
+  unfold parse finish
+  simp only
+  generalize hes : prepass ext m = es at hcf
+  have inv := (runEntities_inv ext es).1
+  let le := fun (a b : TripID × TripData) => !tripLess b.1 a.1
+  have hperm := List.mergeSort_perm (runEntities ext es).trips le
+  have hlk := trips_lookup_cf ext es hcf
+  constructor
+  · intro k
+    simp only [List.map_map, List.mem_map, Function.comp]
+    constructor
+    · rintro ⟨p, hp, rfl⟩
+      have hp' : p ∈ (runEntities ext es).trips := hperm.subset hp
+      have hid := (inv.2 p hp').1
+      have hl := (mem_iff_alookup' _ inv.1 p.1 p.2).mp hp'
+      rw [hlk p.1] at hl
+      split at hl
+      · exact absurd hl (by simp)
+      · next hne =>
+        obtain ⟨x, hx⟩ := List.exists_mem_of_ne_nil _ hne
+        have := List.mem_filter.mp hx
+        exact ⟨x, this.1, by rw [hid]; simpa using this.2⟩
+    · rintro ⟨x, hx, rfl⟩
+      have hne : ((allMentions ext es).filter fun m => m.id == x.id) ≠ [] := by
+        intro h
+        have : x ∈ (allMentions ext es).filter fun m => m.id == x.id := List.mem_filter.mpr ⟨hx, by simp⟩
+        rw [h] at this; simp at this
+      have hl := hlk x.id
+      rw [if_neg hne] at hl
+      have hmem := (mem_iff_alookup' _ inv.1 x.id _).mpr hl
+      refine ⟨_, hperm.symm.subset hmem, ?_⟩
+      exact (inv.2 _ hmem).1
+  · intro t ht
+    simp only [List.mem_map] at ht
+    obtain ⟨p, hp, rfl⟩ := ht
+    have hp' : p ∈ (runEntities ext es).trips := hperm.subset hp
+    have hid := (inv.2 p hp').1
+    have hl := (mem_iff_alookup' _ inv.1 p.1 p.2).mp hp'
+    rw [hlk p.1] at hl
+    split at hl
+    · exact absurd hl (by simp)
+    · simp only [Option.some.injEq] at hl
+      simp only [hid]
+      exact hl.symm
+
+/-- **C02 (one Vehicle per distinct vehicle).** `Vehicles` is the identified vehicles followed by the
+    id-less ones. For a message without conflicting duplicates: a vehicle identifier is among the
+    identified ones exactly when some entity mentions it (a vehicle position, or the vehicle
+    descriptor of a trip update), once, carrying the data of its own vehicle position when it has one
+    (flagged `inMessage`) and otherwise only the identifier; the id-less vehicles are exactly the
+    id-less mentions, one each, in feed order. -/
+theorem C02_vehicles_exact (ext : Ext) (m : Msg) (hcf : ConflictFreeVehicles ext (prepass ext m)) :
+    ∃ withId : List VehData,
+      (parse ext m).vehicles.map (·.data)
+        = withId ++ (allVehMentions ext (prepass ext m)).filter (fun v => v.id.isNone) ∧
+      (withId.map (·.id)).Nodup ∧
+      (∀ k, some k ∈ withId.map (·.id) ↔ ∃ x ∈ allVehMentions ext (prepass ext m), x.id = some k) ∧
+      (∀ v ∈ withId, ∃ k, v.id = some k ∧
+        v = match ((allVehMentions ext (prepass ext m)).filter fun x => x.id == some k).find? (·.inMessage) with
+            | some own => own
+            | none => { id := some k, inMessage := false }) := by
+  unfold parse finish
+  simp only
+  generalize hes : prepass ext m = es at hcf
+  obtain ⟨_, hnd, hid, _⟩ := runEntities_inv ext es
+  let le := fun (a b : VehicleID × VehData) => !vehLess b.1 a.1
+  have hperm := List.mergeSort_perm (runEntities ext es).vehicles le
+  have hlk := vehicles_lookup_cf ext es hcf
+  refine ⟨((runEntities ext es).vehicles.mergeSort le).map (·.2), ?_, ?_, ?_, ?_⟩
+  · rw [List.map_append, List.map_map, ← noId_eq]
+    congr 1
+    apply List.ext_getElem?
+    intro i
+    simp only [List.getElem?_map, List.getElem?_mapIdx, Option.map_map]
+    cases (runEntities ext es).noId[i]? <;> rfl
+  · have hkeys : (((runEntities ext es).vehicles.mergeSort le).map (·.2)).map (·.id)
+        = (akeys ((runEntities ext es).vehicles.mergeSort le)).map some := by
+      simp only [List.map_map, akeys]
+      apply List.map_congr_left
+      intro p hp
+      exact hid p (hperm.subset hp)
+    rw [hkeys]
+    have : (akeys ((runEntities ext es).vehicles.mergeSort le)).Nodup := (List.Perm.nodup_iff (hperm.map _)).mpr hnd
+    exact List.Pairwise.map some (fun a b h e => h (Option.some.inj e)) this
+  · intro k
+    simp only [List.map_map, List.mem_map, Function.comp]
+    constructor
+    · rintro ⟨p, hp, hpk⟩
+      have hp' : p ∈ (runEntities ext es).vehicles := hperm.subset hp
+      have hidp := hid p hp'
+      have hk : p.1 = k := by rw [hidp] at hpk; exact Option.some.inj hpk
+      have hl := (mem_iff_alookup' _ hnd p.1 p.2).mp hp'
+      rw [hlk p.1] at hl
+      split at hl
+      · exact absurd hl (by simp)
+      · next hne =>
+        obtain ⟨x, hx⟩ := List.exists_mem_of_ne_nil _ hne
+        have := List.mem_filter.mp hx
+        exact ⟨x, this.1, by rw [← hk]; simpa using this.2⟩
+    · rintro ⟨x, hx, hxk⟩
+      have hne : ((allVehMentions ext es).filter fun m => m.id == some k) ≠ [] := by
+        intro h
+        have : x ∈ (allVehMentions ext es).filter fun m => m.id == some k := List.mem_filter.mpr ⟨hx, by simp [hxk]⟩
+        rw [h] at this; simp at this
+      have hl := hlk k
+      rw [if_neg hne] at hl
+      have hmem := (mem_iff_alookup' _ hnd k _).mpr hl
+      exact ⟨_, hperm.symm.subset hmem, hid _ hmem⟩
+  · intro v hv
+    simp only [List.mem_map] at hv
+    obtain ⟨p, hp, rfl⟩ := hv
+    have hp' : p ∈ (runEntities ext es).vehicles := hperm.subset hp
+    refine ⟨p.1, hid p hp', ?_⟩
+    have hl := (mem_iff_alookup' _ hnd p.1 p.2).mp hp'
+    rw [hlk p.1] at hl
+    split at hl
+    · exact absurd hl (by simp)
+    · simp only [Option.some.injEq] at hl
+      exact hl.symm
+
+end Gtfs.Rt
+
+namespace Gtfs.Rt
+
+/-! non-vacuity: a concrete message meets the hypotheses of the two theorems above -/
+
+/-- a message with a trip update (trip "A", vehicle "V"), the position of vehicle "V" on trip "A",
+    and an alert informing trip "B" -/
+def demoMsg : Msg :=
+  { timestamp := some 100,
+    entities := [
+      { id := [49], tripUpdate := some { trip := some { tripId := some [65] }, vehicle := some { id := some [86] } } },
+      { id := [50], vehicle := some { trip := some { tripId := some [65] }, vehicle := some { id := some [86] } } },
+      { id := [51], alert := some { informed := [{ trip := some { tripId := some [66] } }] } } ] }
+
+example : ConflictFreeTrips .noExt (prepass .noExt demoMsg) :=
+  conflictFreeTrips_of_nodup _ _ (by decide)
+example : ConflictFreeVehicles .noExt (prepass .noExt demoMsg) :=
+  conflictFreeVehicles_of_nodup _ _ (by decide)
+example : ((runEntities .noExt (prepass .noExt demoMsg)).trips.map (·.2.inMessage)) = [true, false] := by decide
 
 end Gtfs.Rt
